@@ -28,7 +28,29 @@ INT_MIN = -2 ** 31
 INT_MAX = 2 ** 31 - 1
 
 MUTATION_DRILLS = [
-    # filled in after the drills were run (see the end of this file)
+    # run 2026-09-29 in a scratch worktree of /repo (HEAD 24599a7), each with
+    #   VERIF_REPO=/var/tmp/wt-c17 VERIF_CACHE=/var/tmp/rime-verif-c17 bin/check C17 quick
+    # every mutant compiles and passes the unedited test suite (ctest: 87 tests); worktree removed afterwards
+    {"id": "M1", "mutation": "user_db.cc UserDbMerger::Put: `std::abs(o.commits) < std::abs(v.commits)` -> `>` (keep the smaller magnitude)",
+     "tests_pass": True, "detected": True,
+     "fired": "VIOLATION with failing input: magnitude-not-max / magnitude-lowered after `merge 0 1`, `restore 0 1`, `sync`; roundtrip-differs (boundary case b0 ff.)"},
+    {"id": "M2", "mutation": "user_db.cc CloseMerge: the `db_->MetaUpdate(\"/tick\", ...)` line removed",
+     "tests_pass": True, "detected": True, "fired": "VIOLATION with failing input: tick-not-max after merge / restore / sync (boundary case b0, op 0)"},
+    {"id": "M3", "mutation": "tsv.cc TsvReader: `trim_right(line)` -> `trim(line)` (a code with a leading blank loses it)",
+     "tests_pass": True, "detected": True, "fired": "VIOLATION with failing input: key-lost-theirs after restore/sync, magnitude-not-max (random cases with code ' y ')"},
+    {"id": "M4", "mutation": "user_db.cc userdb_entry_formatter: `if (UserDbValue(value).commits < 0) return false;` (snapshots skip deleted entries)",
+     "tests_pass": True, "detected": True, "fired": "VIOLATION with failing input: key-lost-theirs after restore, roundtrip-differs (boundary case b71), magnitude-not-max after sync"},
+    {"id": "M6", "mutation": "user_db.cc UserDbMerger::Put: `o.tick = max_tick_` -> `o.tick = v.tick`",
+     "tests_pass": True, "detected": True,
+     "fired": "VIOLATION no-failing-input-found: correspondence:c17 (entry ticks differ from the model; no clause of the property's oracle is about entry ticks)"},
+    {"id": "M7", "mutation": "level_db.cc LevelDb::QueryAll: `Jump(\" \")` -> `Jump(\"b\")` (the cursor skips keys below 'b')",
+     "tests_pass": True, "detected": True, "fired": "VIOLATION with failing input: magnitude-not-max after `merge 0 1` (b0), key-lost-theirs, roundtrip-differs (b71)"},
+    {"id": "M8", "mutation": "user_db.h: `int merged_entries_ = 0;` -> `int merged_entries_;` (the repaired defect put back)",
+     "tests_pass": True, "detected": True,
+     "fired": "translator reports NotInitialised, C17_ctor_initialises_merged_entries fails; VIOLATION with failing input: tick-not-max:uninit-storage "
+              "(case b73: one-entry merge, storage pre-filled with -1) and memcheck:uninitialised-read (Source::Dump, CloseMerge)"},
+    {"id": "M10", "mutation": "tsv.cc TsvWriter: metadata lines written as `#@key value` (blank instead of TAB)",
+     "tests_pass": True, "detected": True, "fired": "VIOLATION with failing input: tick-not-max, key-lost-theirs, magnitude-not-max after sync (restore of such a snapshot fails)"},
 ]
 
 
@@ -398,6 +420,15 @@ def run(ctx):
         ctx.coverage["discharged"] = ctx.coverage["obligations"]
         ctx.notes.append("forbidden-keyword hits outside C17's files ignored: %r" % (res.get("forbidden"),))
 
+    if ctx.tier == "thorough" and proof_ok:
+        with vlib.Lock(os.path.join(vlib.COQ, ".make.lock")):
+            rcc, outc = vlib.sh("timeout 900 coqchk -silent -o -Q . RimeV RimeV.Properties_C17", cwd=vlib.COQ, timeout=930)
+        m = re.search(r"\* Axioms:\s*(.*?)\n\s*\n", outc, re.S)
+        ctx.coverage["coqchk"] = {"rc": rcc, "axioms": (m.group(1).strip() if m else "?"), "cmd": "coqchk -silent -o -Q . RimeV RimeV.Properties_C17"}
+        if rcc != 0:
+            proof_ok = False
+            ctx.coverage["discharged"] = 0
+            ctx.violation("proof:coqchk", "coqchk rejects the compiled proofs of Properties_C17", {"log": outc[-3000:]}, found_input=False)
     okm, logm = vlib.coq_make(["Gen/Inits.vo", "Udb/Manager.vo"])
     if not okm:
         ctx.violation("model-does-not-compile", "the Udb model or the generated Gen/Inits.v does not compile",
